@@ -119,7 +119,9 @@ def _kernel(rng, n, kind=None, wide_axis=None, narrow_axis=None):
         else:
             p.append(int(rng.integers(0, min(n[a], 3) + 1)))
     # 2D kernels for 2D domains are given as (a,b) or (a,b,1); for 3D domains (a,b) means no extent in z
-    if dim == 2:
+    if dim == 2 and wide_axis in (None, 0) and narrow_axis in (None, 0) and rng.random() < 0.12:
+        shape = [2 * p[0] + 1]          # a 1-D kernel acts along x only
+    elif dim == 2:
         shape = [2 * q + 1 for q in p] + ([1] if rng.random() < 0.3 else [])
     elif wide_axis != 2 and narrow_axis != 2 and rng.random() < 0.15:
         shape = [2 * q + 1 for q in p[:2]]
@@ -165,6 +167,10 @@ def plan(tier, seed):
         us = float(10.0 ** rng.integers(-9, 4)) if rng.random() < 0.3 else 1.0
         cases.append({"t": "dens", "n": n, "unit": [round(float(v), 3) * us for v in rng.uniform(0.4, 2.5, 3)],
                       "radii": radii, "intr": bool(rng.random() < 0.3)})
+    # ---- DensityFilter: radii beyond 11.3 elements on domains wide enough to contain such pairs (squared offsets >= 128)
+    for n, radii in [[[14, 9, 0], [11.5, 12.7]], [[1, 15, 0], [12.2, 14.5]], [[9, 9, 3], [11.6, 12.9]]] + \
+            ([] if quick else [[[20, 12, 0], [11.4, 16.3, 23.0]], [[10, 10, 10], [11.5, 15.2]], [[13, 13, 0], [12.0, 18.1]]]):
+        cases.append({"t": "dens", "n": n, "unit": [1.0, 1.3, 0.7], "radii": radii, "intr": False})
     # ---- FilterConv (a): every ordered pair of rules on every axis, narrow and wide kernel
     nmax = 6 if quick else 8
     for dim in (2, 3):
@@ -588,6 +594,19 @@ def _run_conv(case, ctx):
                 ctx.violate("filterconv/value-override-added-after-first-use-acts-differently-from-one-added-before", field=fname,
                             value=val, err=float(np.max(np.abs(ya - yb))) if ya.shape == yb.shape else None, **wit)
                 break
+        # with overrides the output is an affine function of the field: the midpoint of an exactly uniform field and a random one
+        # maps to the midpoint of their outputs (no model of the override semantics needed; uniform fields are where shortcuts live)
+        xc, xr = fields[2][1], fields[0][1]
+        outs = []
+        for xx in (xc, xr, 0.5 * (xc + xr)):
+            sig.state = xx.copy()
+            m.response()
+            outs.append(np.array(m.sig_out[0].state, dtype=float))
+        ctx.count("conv_override_affinity_checks")
+        sc_ = max(1.0, float(np.max(np.abs(xc))), float(np.max(np.abs(xr)))) * max(wsum, 1.0)
+        if not np.allclose(outs[2], 0.5 * (outs[0] + outs[1]), rtol=0, atol=1e-11 * sc_):
+            ctx.violate("filterconv/output-with-value-overrides-is-not-affine-in-the-field", value=val,
+                        err=float(np.max(np.abs(outs[2] - 0.5 * (outs[0] + outs[1])))), uniform_value=float(xc[0]), **wit)
     kinds = "".join(_kind(mm)[0] for mm in modes[:2 * dim])
     return {"key": f"conv|{dim}D|{kd['k']}|{kinds}|{'wide' if wide else 'narrow'}",
             "nontrivial": nel >= 2 and any(q > 0 for q in p) and bool(np.count_nonzero(w3) > 1 or w3[tuple(p)] == 0),
